@@ -240,6 +240,8 @@ def check(prog, rep):
         "eigenvector selection and of the translate/rotate/translate composition and call-site frames"
     )
     rep.trusted += ["sympy expand / groebner (used as a polynomial normaliser)"]
+    rep.guarded(rule_arguments_not_modified, prog, rep)  # first: stands even if the algebra below cannot be read off the code
+    rep.guarded(rule_torsions_can_be_set, prog, rep)
     rep.not_decided += ["convergence of the Jacobi sweeps beyond the model fits of R6 (eight rigid motions of one template triple, two of "
                         "them chosen because they need five sweeps)", "degenerate (collinear) inputs", "the rounding of RADIANS_TO_DEGREES"]
     q = prog.module("quatfit.py")
@@ -573,3 +575,121 @@ def _subtract_ok(fn):
         return False
     e = rets[0]
     return params[0] in U(e.left) and params[1] in U(e.right) and params[1] not in U(e.left) and params[0] not in U(e.right)
+
+
+_VIEW_CALLS = {"asarray", "asanyarray", "ascontiguousarray", "asfarray", "atleast_1d", "atleast_2d", "squeeze", "ravel", "reshape", "transpose"}
+_VIEW_ATTRS = {"T", "real", "flat"}
+_MUTATORS = {"append", "extend", "insert", "pop", "remove", "sort", "reverse", "clear", "fill", "resize", "put", "itemset", "partition", "setfield", "__setitem__",
+             "__iadd__", "__isub__", "__imul__", "update"}
+
+
+def rule_arguments_not_modified(prog, rep):
+    """Effect analysis of quatfit.py: which parameters can a function modify in place - directly (a store through the parameter, through
+    a view of it, or an in-place operator on either) or by handing it, or a view of it, to a function of the module that modifies the
+    corresponding parameter.  The functions the pipeline calls from other modules must modify none: a placement must not move the
+    structure or template points it was given."""
+    r = rep.rule("R7", "the fitting routines called by the pipeline do not modify the point lists they are given", floor=2)
+    mod = prog.modules["quatfit.py"]
+    funcs = {n.name: n for n in mod.tree.body if isinstance(n, ast.FunctionDef)}
+
+    def aliases(fn):
+        """name -> {(param, kind)}; kind 'whole' (the object itself or a view) or 'element' (an item reached by an index)."""
+        params = [a.arg for a in fn.args.args]
+        al = {p_: {(p_, "whole")} for p_ in params}
+
+        def of(expr):
+            if isinstance(expr, ast.Name):
+                return set(al.get(expr.id, ()))
+            if isinstance(expr, ast.Subscript):
+                base = of(expr.value)
+                whole = isinstance(expr.slice, ast.Slice) or (isinstance(expr.slice, ast.Tuple) and any(isinstance(e, ast.Slice) for e in expr.slice.elts))
+                return {(p_, k if whole else "element") for p_, k in base}
+            if isinstance(expr, ast.Attribute) and expr.attr in _VIEW_ATTRS:
+                return of(expr.value)
+            if isinstance(expr, ast.Call):
+                nm = U(expr.func).split(".")[-1]
+                if nm in _VIEW_CALLS:
+                    src = expr.args[0] if expr.args else (expr.func.value if isinstance(expr.func, ast.Attribute) else None)
+                    if isinstance(expr.func, ast.Attribute) and not U(expr.func.value).split(".")[0] in ("np", "numpy"):
+                        src = expr.func.value
+                    return of(src) if src is not None else set()
+                if nm == "array" and any(k.arg == "copy" and isinstance(k.value, ast.Constant) and k.value.value is False for k in expr.keywords):
+                    return of(expr.args[0]) if expr.args else set()
+            if isinstance(expr, ast.IfExp):
+                return of(expr.body) | of(expr.orelse)
+            return set()
+
+        for _ in range(4):  # flow-insensitive closure over the assignments
+            for n in ast.walk(fn):
+                if isinstance(n, ast.Assign) and len(n.targets) == 1 and isinstance(n.targets[0], ast.Name):
+                    al.setdefault(n.targets[0].id, set()).update(of(n.value))
+                elif isinstance(n, (ast.For, ast.comprehension)) and isinstance(n.target, ast.Name):
+                    al.setdefault(n.target.id, set()).update({(p_, "element") for p_, _ in of(n.iter)})
+        return al, of
+
+    direct, passes = {}, {}
+    for name, fn in funcs.items():
+        al, of = aliases(fn)
+        hit, handed = {}, []
+        for n in ast.walk(fn):
+            if isinstance(n, (ast.Assign, ast.AugAssign, ast.Delete)):
+                targets = n.targets if isinstance(n, (ast.Assign, ast.Delete)) else [n.target]
+                for t_ in targets:
+                    if isinstance(t_, ast.Subscript):
+                        for p_, _ in of(t_.value):
+                            hit.setdefault(p_, f"line {n.lineno}: {U(n)[:50]}")
+                    elif isinstance(t_, ast.Name) and isinstance(n, ast.AugAssign):
+                        for p_, k in al.get(t_.id, ()):
+                            if k == "whole":
+                                hit.setdefault(p_, f"line {n.lineno}: {U(n)[:50]} (in-place operator on the argument or a view of it)")
+            if isinstance(n, ast.Call) and isinstance(n.func, ast.Attribute) and n.func.attr in _MUTATORS:
+                for p_, _ in of(n.func.value):
+                    hit.setdefault(p_, f"line {n.lineno}: {U(n)[:50]}")
+            if isinstance(n, ast.Call) and isinstance(n.func, ast.Name) and n.func.id in funcs:
+                for i, a in enumerate(n.args):
+                    for p_, _ in of(a):
+                        handed.append((n.func.id, i, p_, n.lineno))
+        direct[name], passes[name] = hit, handed
+    changed = True
+    while changed:
+        changed = False
+        for name in funcs:
+            for callee, i, p_, line in passes[name]:
+                cp = [a.arg for a in funcs[callee].args.args]
+                if i < len(cp) and cp[i] in direct[callee] and p_ not in direct[name]:
+                    direct[name][p_] = f"line {line}: handed to {callee}(), which modifies its parameter {cp[i]!r} ({direct[callee][cp[i]]})"
+                    changed = True
+    external = set()
+    for key, f in prog.funcs.items():
+        if f.module.rel == "quatfit.py":
+            continue
+        for c in calls_in(f.node):
+            nm = U(c.func).split(".")
+            if len(nm) == 2 and nm[0] in ("quat", "quatfit") and nm[1] in funcs:
+                external.add(nm[1])
+    if not external:
+        raise AnalysisError("no call into quatfit from the pipeline found")
+    for name in sorted(external):
+        fn = funcs[name]
+        r.add(f"pure|{name}", not direct[name], f"{name}({', '.join(a.arg for a in fn.args.args)}): " + ("modifies none of its arguments, directly or through "
+              "the functions it calls" if not direct[name] else "; ".join(f"modifies {p_!r} - {why}" for p_, why in direct[name].items())),
+              f"pdb2pqr/quatfit.py:{fn.lineno} ({name})")
+    r.info["functions_analysed"] = len(funcs)
+    r.info["modifying_internal_functions"] = {n_: sorted(d) for n_, d in direct.items() if d}
+
+
+def rule_torsions_can_be_set(prog, rep):
+    """The symbolic argument of R4 (the fourth atom arrives at the requested angle) presupposes that the fourth atom is rotated at all: the
+    part of C04's torsion move-set table that says so is listed here - no tabulated torsion has its rotated bond inside a ring, and no atom
+    of the far side is left behind."""
+    from ..report import Report
+    from . import c04
+    tmp = Report("C04", rep.tier)
+    c04.check(prog, tmp)
+    src = next((x for x in tmp.rules if x.rid == "R1"), None)
+    if src is None:
+        raise AnalysisError("the torsion move-set table (C04.R1) was not produced")
+    r = rep.rule("R8", "every tabulated torsion can be set: the rotated bond is not part of a ring and the whole far side is rotated", floor=20)
+    for ob in src.obs:
+        if ob.key == "no-ring-bonds" or ob.key.startswith(("left-behind|", "atom|")):
+            r.add(ob.key, ob.ok, ob.what, ob.where)
